@@ -75,10 +75,10 @@ INFO = {
         "rule": _HNF_RULE,
         "rulefn": _c02_rule,
         "trusted": ["Vec<Vec<BigInt>> identified with List (List Int); toM maps rectangular lists to Mathlib matrices"],
-        "gaps": ["determinant() = lattice index for square full-rank H: certified on every explored case against an independent rational-elimination determinant (theorem outstanding)"],
+        "gaps": [],
         "assumptions": ["rectangular input with n >= 1 rows and m >= 1 columns (the 0-row and 0-column cases are run through the correspondence only)"],
-        "level_text": "Theorems for every rectangular integer matrix about the Lean model of hnf.rs: termination, normal-form shape, equality of row lattices, independence (rank), and canonicity (same lattice => identical output, via a uniqueness theorem for Hermite normal forms). Model tied to hnf.rs by differential testing; every implementation output re-checked by an independent Lean oracle (shape predicate, rank by rational elimination, lattice membership by back-substitution, U*A product and det U).",
-        "level_note": "Trusted: Lean kernel + 3 standard axioms; Mathlib Matrix/det; BigInt identified with Int; correspondence generator coverage. The determinant-is-index clause is certified per explored case, not proved.",
+        "level_text": "Theorems for every rectangular integer matrix about the Lean model of hnf.rs: termination, normal-form shape, equality of row lattices, independence (rank), canonicity (same lattice => identical output, via a uniqueness theorem for Hermite normal forms), and determinant = lattice index for square full-rank input. Model tied to hnf.rs by differential testing; every implementation output re-checked by an independent Lean oracle (shape predicate, rank by rational elimination, lattice membership by back-substitution, U*A product and det U).",
+        "level_note": "Trusted: Lean kernel + 3 standard axioms; Mathlib Matrix/det; BigInt identified with Int; correspondence generator coverage.",
     },
     "C03": {
         "rule": _HNF_RULE,
